@@ -245,6 +245,18 @@ BETWEEN = {
     "Ridge2FoldCV": [("predict", lambda: (arr("Xb", "V", "M1"),))],
 }
 
+# readers called after the second fit: a refitted estimator answers like a fresh one
+AFTER = {
+    "PCovR": [("transform", lambda: (arr("Xa", "V", "M"),)), ("predict", lambda: (arr("Xa", "V", "M"),))],
+    "KernelPCovR": [("transform", lambda: (arr("Xa", "V", "M"),)), ("predict", lambda: (arr("Xa", "V", "M"),))],
+    "StandardFlexibleScaler": [("transform", lambda: (arr("Xa", "V", "M"),))],
+    "KernelNormalizer": [("transform", lambda: (arr("Ka", "V", "N"),))],
+    "SparseKernelCenterer": [("transform", lambda: (arr("Ka", "V", "A"),))],
+    "Ridge2FoldCV": [("predict", lambda: (arr("Xa", "V", "M"),))],
+    "OrthogonalRegression": [("predict", lambda: (arr("Xa", "V", "M"),))],
+    "SparseKDE": [("score_samples", lambda: (arr("Qa", "Qn", "F"),))],
+}
+
 
 def _reset(ctx, N):
     P = ctx.P
@@ -273,6 +285,10 @@ def _reset(ctx, N):
     cases.append(("SparseKDE", "skmatter.neighbors.SparseKDE", {"descriptors": arr("descriptors", "D", "F"), "weights": arr("weights", "D")}, ((arr("grid1", "G1", "F"),), {}), ((arr("grid", "G", "F"),), {}), []))
     cases.append(("QuickShift", "skmatter.clustering.QuickShift", {"dist_cutoff_sq": arr("cutoffs", "N")}, ((arr("X1", "N1", "F"),), {"samples_weight": arr("w1", "N1")}), ((arr("X", "N", "F"),), {"samples_weight": arr("w", "N")}), []))
     cases.append(("DirectionalConvexHull", "skmatter.sample_selection.DirectionalConvexHull", {}, ((arr("X1", "N1", "M1"), arr("y1", "N1")), {}), ((arr("X", "N", "M"), arr("y", "N")), {}), []))
+    # other data of the *same* size: nothing sized like the data may be carried over either
+    cases.append(("QuickShift[Gabriel shells]: other points, same number", "skmatter.clustering.QuickShift", {"gabriel_shell": integer("shell")}, ((arr("X1", "N", "F"),), {"samples_weight": arr("w1", "N")}), ((arr("X", "N", "F"),), {"samples_weight": arr("w", "N")}), []))
+    cases.append(("QuickShift[cut-off]: other points, same number", "skmatter.clustering.QuickShift", {"dist_cutoff_sq": arr("cutoffs", "N")}, ((arr("X1", "N", "F"),), {"samples_weight": arr("w1", "N")}), ((arr("X", "N", "F"),), {"samples_weight": arr("w", "N")}), []))
+    cases.append(("SparseKDE: other grid, same size", "skmatter.neighbors.SparseKDE", {"descriptors": arr("descriptors", "D", "F"), "weights": arr("weights", "D")}, ((arr("grid1", "G", "F"),), {}), ((arr("grid", "G", "F"),), {}), []))
     # the same histories with a hyper-parameter changed (set_params) between the two fits: what the
     # second fit leaves behind is what a fresh object with the new parameters would hold
     X1y1 = ((arr("X1", "N1", "M1"), arr("y1", "N1", "P1")), {})
@@ -347,6 +363,19 @@ def _reset(ctx, N):
                 diffs.append(k)
         ctx.ob("R-RESET", f"{name}: no fitted attribute depends on the previous fit's data", not leaks, f"attributes still depending on the first data set: {leaks}" if leaks else "none", site, name)
         ctx.ob("R-RESET", f"{name}: refitted values == fresh values (normal forms)", not diffs, f"attributes whose value differs from a fresh fit: {diffs}" if diffs else f"{len(live1 & live2)} attributes compared", site, name)
+        for meth, mk in AFTER.get(cls.rsplit(".", 1)[1], ()):
+            a1_, a2_ = mk(), mk()
+            m1_ = len(I1.events)
+            try:
+                r1_ = ctx.call_method(I1, s1, o1, meth, *a1_)
+                r2_ = ctx.call_method(I2, s2, o2, meth, *a2_)
+            except Exception as e_:
+                ctx.ob("R-RESET", f"{name}: {meth} after the refit answers like a fresh estimator", False, f"{meth} could not be evaluated: {e_!r}"[:200], ctx.site(P.method(c, meth)), name)
+                continue
+            ctx.no_shape_conflicts("R-RESET", f"{name}: {meth} after the refit consults no extent of the first fit", I1, m1_, ctx.site(P.method(c, meth)), name)
+            if r1_ is not None and r2_ is not None and not (_has_unstable(r1_.term) or _has_unstable(r2_.term)):
+                same_ = N.nf(r1_.term) == N.nf(r2_.term)
+                ctx.ob("R-RESET", f"{name}: {meth} after the refit answers like a fresh estimator", same_, "equal normal forms" if same_ else f"refitted: {repr(r1_.term)[:160]} ; fresh: {repr(r2_.term)[:160]}", ctx.site(P.method(c, meth)), name)
 
 
 def _has_unstable(t):
